@@ -1,4 +1,5 @@
 import ChythonModel.Proofs.C17EquivTop
+import ChythonModel.Proofs.C17Local
 import ChythonModel.Gen.C17Cache
 /-!
 # C17 — fingerprints are structure functions with the documented fragment semantics
@@ -302,6 +303,42 @@ theorem morgan_bit_set_equivariant (H : TupleHash) (f : Nat → Nat) (m m' : Mol
         exact active_bits_of_same_members _ _ hs hs'
           (morgan_hash_set_equivariant H f m m' R hwf hwf' lo hi h1 h2 hs hs' hh hh') b
 
+
+/-! ## locality of the Morgan identifiers -/
+
+/-- **morgan_identifier_local** — the radius loop is local, for all graphs: if two molecules agree on the `r`-ball of atom
+    `x` (`AgreeBall`: same atom data within `r` bonds of `x`, same neighbour dicts within `r − 1` bonds), `x` has the same
+    identifier after `r` refinement rounds in both — whatever the molecules look like farther away (they may even be
+    malformed there). -/
+theorem morgan_identifier_local (H : TupleHash) (m m' : Mol) (r x : Nat) (h : AgreeBall m m' r x) :
+    ecIdent H m r x = ecIdent H m' r x := ecIdent_local H m m' r x h
+
+/-- the same for the value the model's `_morgan_hash_dict` (the function the driver runs) returns: the `i`-th dict of the
+    result holds the identifiers of radius `lo + i`, and its entry for `x` is the same in both molecules as soon as they
+    agree on the `(lo − 1 + i)`-ball of `x`, stated with the walks of the Spec vocabulary (`BallAgree`). -/
+theorem morgan_dict_local (H : TupleHash) (m m' : Mol) (hwf : m.WF = true) (hwf' : m'.WF = true) (lo hi : Int)
+    (h1 : 1 ≤ lo) (h2 : lo ≤ hi) (ds ds' : List (List (Nat × Int)))
+    (h : morganHashDict H m lo hi = .ok ds) (h' : morganHashDict H m' lo hi = .ok ds')
+    (i : Nat) (hi' : i < (hi - lo + 1).toNat) (x : Nat) (hx : x ∈ m.ids) (hx' : x ∈ m'.ids)
+    (hb : BallAgree m m' ((lo - 1).toNat + i) x) :
+    ∃ v, (ds[i]?).bind (fun d => d.lookup x) = some v ∧ (ds'[i]?).bind (fun d => d.lookup x) = some v := by
+  rw [morgan_layers H m hwf lo hi h1 h2] at h
+  rw [morgan_layers H m' hwf' lo hi h1 h2] at h'
+  cases h; cases h'
+  refine ⟨ecIdent H m ((lo - 1).toNat + i) x, ?_, ?_⟩
+  · rw [List.getElem?_map, List.getElem?_range' hi']
+    simp only [Option.map_some, Option.bind_some, Nat.one_mul]
+    exact lookup_layer _ m.ids x hx
+  · rw [List.getElem?_map, List.getElem?_range' hi']
+    simp only [Option.map_some, Option.bind_some, Nat.one_mul]
+    rw [ecIdent_local H m m' _ x (agreeBall_of_ballAgree _ x hb)]
+    exact lookup_layer _ m'.ids x hx'
+
+/-- `exMol` with the far carbon 3 replaced by nitrogen: the 1-ball of the oxygen 4 (itself and carbon 2) is untouched,
+    its 2-ball is not -/
+def exMolN : Mol := { exMol with atoms := [(3, { z := 7 }), (1, { z := 6 }), (4, { z := 8 }), (2, { z := 6 })] }
+
+example : AgreeBall exMol exMolN 1 4 ∧ ¬ AgreeBall exMol exMolN 2 4 ∧ exMolN.WF = true := by decide +kernel
 
 /-! ## no exception inside the documented grid -/
 
